@@ -61,3 +61,137 @@ Proof.
   remember (nth i s 0) as a eqn:Ea. remember (nth j w 0) as b eqn:Eb.
   rewrite Es, Ew. rewrite <- Ls, <- Lw, !set_nth_app. apply swap_perm_aux.
 Qed.
+
+Lemma NoDup_app_l {A} (a b : list A) : NoDup (a ++ b) -> NoDup a.
+Proof.
+  induction a as [|x t IH]; cbn [app]; intros H; [constructor|].
+  inversion H as [|? ? Hx Ht]; subst. constructor; [|now apply IH].
+  intros Hin. apply Hx, in_or_app. now left.
+Qed.
+Lemma NoDup_app_r {A} (a b : list A) : NoDup (a ++ b) -> NoDup b.
+Proof. induction a as [|x t IH]; cbn [app]; intros H; [exact H|]. inversion H; subst. now apply IH. Qed.
+Lemma NoDup_app_disj {A} (a b : list A) x : NoDup (a ++ b) -> In x a -> ~ In x b.
+Proof.
+  induction a as [|y t IH]; cbn [app]; intros H Hx Hb; [contradiction|].
+  inversion H as [|? ? Hy Ht]; subst. destruct Hx as [->|Hx]; [apply Hy, in_or_app; now right | now apply (IH Ht Hx)].
+Qed.
+
+(** ** insertion sort: permutation, sortedness *)
+Definition key_le (a b : Z * Z) : Prop := fst a <= fst b.
+Lemma insert_by_perm kx l : Permutation (insert_by kx l) (kx :: l).
+Proof.
+  induction l as [|ky t IH]; cbn [insert_by]; [reflexivity|].
+  destruct (fst kx <=? fst ky); [reflexivity|].
+  transitivity (ky :: kx :: t); [now constructor | constructor].
+Qed.
+Lemma isort_perm l : Permutation (isort l) l.
+Proof.
+  induction l as [|x t IH]; cbn [isort fold_right]; [constructor|].
+  fold (isort t). rewrite insert_by_perm. now constructor.
+Qed.
+Lemma insert_by_sorted kx l : StronglySorted key_le l -> StronglySorted key_le (insert_by kx l).
+Proof.
+  induction 1 as [|ky t Hs IH Hf]; cbn [insert_by]; [repeat constructor|].
+  destruct (Z.leb_spec (fst kx) (fst ky)) as [L|G].
+  - constructor; [now constructor|]. constructor; [exact L|].
+    rewrite Forall_forall in *. intros z Hz. unfold key_le in *. specialize (Hf z Hz). lia.
+  - constructor; [exact IH|].
+    rewrite Forall_forall in *. intros z Hz.
+    apply (Permutation_in _ (insert_by_perm kx t)) in Hz. destruct Hz as [<-|Hz]; [unfold key_le; lia | now apply Hf].
+Qed.
+Lemma isort_sorted l : StronglySorted key_le (isort l).
+Proof.
+  induction l as [|x t IH]; cbn [isort fold_right]; [constructor|]. now apply insert_by_sorted.
+Qed.
+
+Lemma sumZ_app a b : sumZ (a ++ b) = sumZ a + sumZ b.
+Proof. induction a as [|x t IH]; cbn [app sumZ fold_right]; [reflexivity|]. fold (sumZ (t ++ b)) (sumZ t). lia. Qed.
+Lemma sumZ_cons x t : sumZ (x :: t) = x + sumZ t.
+Proof. reflexivity. Qed.
+
+(** the first k elements of a list sorted by w have the smallest w-sum among all duplicate-free
+    k-element selections from the list *)
+Lemma firstn_min_sum (w : Z -> Z) (L : list Z) : StronglySorted (fun a b => w a <= w b) L ->
+  forall k y, NoDup y -> incl y L -> length y = k -> sumZ (map w (firstn k L)) <= sumZ (map w y).
+Proof.
+  induction 1 as [|a L' Hs IH Hf]; intros k y Hn Hi Hl.
+  - destruct y as [|b y]; [subst k; cbn; lia | exfalso; apply (Hi b); now left].
+  - destruct k as [|k']; [destruct y; [cbn; lia | discriminate]|].
+    cbn [firstn map]. rewrite sumZ_cons.
+    destruct (in_dec Z.eq_dec a y) as [Hin|Hnin].
+    + destruct (in_split _ _ Hin) as (y1 & y2 & ->).
+      apply NoDup_remove in Hn as [Hn' Hna].
+      rewrite map_app. cbn [map]. rewrite sumZ_app, sumZ_cons.
+      assert (IHy : sumZ (map w (firstn k' L')) <= sumZ (map w (y1 ++ y2))).
+      { apply IH; [exact Hn' | | rewrite app_length in *; cbn [length] in Hl; lia].
+        intros z Hz. assert (Hz' : In z (y1 ++ a :: y2)) by (apply in_app_or in Hz; apply in_or_app; cbn; tauto).
+        destruct (Hi z Hz') as [<-|H]; [contradiction | exact H]. }
+      rewrite map_app, sumZ_app in IHy. lia.
+    + destruct y as [|b y']; [discriminate|].
+      inversion Hn as [|? ? Hb Hn']; subst.
+      cbn [map]. rewrite sumZ_cons.
+      assert (Hbl : In b L').
+      { destruct (Hi b (or_introl eq_refl)) as [<-|H]; [exfalso; apply Hnin; now left | exact H]. }
+      assert (IHy : sumZ (map w (firstn k' L')) <= sumZ (map w y')).
+      { apply IH; [exact Hn' | | cbn [length] in Hl; lia].
+        intros z Hz. destruct (Hi z (or_intror Hz)) as [<-|H]; [exfalso; apply Hnin; now right | exact H]. }
+      rewrite Forall_forall in Hf. specialize (Hf b Hbl). cbn beta in Hf. lia.
+Qed.
+
+Section SortProofs.
+  Variable ev : list Z -> evalT.
+
+  Lemma map_snd_keyed cand : map snd (keyed ev cand) = cand.
+  Proof. unfold keyed. rewrite map_map. cbn. apply map_id. Qed.
+
+  Lemma sorted_elems_perm cand : Permutation (map snd (isort (keyed ev cand))) cand.
+  Proof. rewrite <- (map_snd_keyed cand) at 2. apply Permutation_map, isort_perm. Qed.
+
+  Lemma sorted_elems_sorted cand :
+    StronglySorted (fun a b => single_key ev a <= single_key ev b) (map snd (isort (keyed ev cand))).
+  Proof.
+    assert (Hk : Forall (fun p => fst p = single_key ev (snd p)) (isort (keyed ev cand))).
+    { rewrite Forall_forall. intros p Hp. apply (Permutation_in _ (isort_perm _)) in Hp.
+      unfold keyed in Hp. apply in_map_iff in Hp as (e & <- & _). reflexivity. }
+    pose proof (isort_sorted (keyed ev cand)) as Hs.
+    induction Hs as [|p t Hs IH Hf]; cbn [map]; [constructor|].
+    inversion Hk as [|? ? Hp Hk']; subst. constructor; [now apply IH|].
+    rewrite Forall_forall in *. intros z Hz. apply in_map_iff in Hz as (q & <- & Hq).
+    specialize (Hf q Hq). unfold key_le in Hf. rewrite <- Hp, <- (Hk' q Hq). exact Hf.
+  Qed.
+
+  (** the sorting optimiser returns k distinct members of the candidate set *)
+  Lemma sort_select_feasible cand k : NoDup cand -> (k <= length cand)%nat -> feasible cand k (sort_select ev cand k).
+  Proof.
+    intros Hn Hk. unfold sort_select. set (L := map snd (isort (keyed ev cand))).
+    pose proof (sorted_elems_perm cand) as HP. fold L in HP.
+    assert (HnL : NoDup L) by (apply (Permutation_NoDup (Permutation_sym HP)), Hn).
+    repeat split.
+    - rewrite <- (firstn_skipn k L) in HnL. now apply NoDup_app_l in HnL.
+    - intros z Hz. apply (Permutation_in _ HP). rewrite <- (firstn_skipn k L). apply in_or_app. now left.
+    - rewrite firstn_length, (Permutation_length HP). lia.
+  Qed.
+
+  (** ... reports the evaluation of exactly that decision *)
+  Lemma sort_minimize_truthful cand k : snd (sort_minimize ev cand k) = ev (fst (sort_minimize ev cand k)).
+  Proof. reflexivity. Qed.
+
+  (** ... and, when the objective is a sum of per-member terms, no k-subset has a smaller objective *)
+  Lemma sorting_optimal (w : Z -> Z) cand k :
+    (forall x, e_obj (ev x) = [sumZ (map w x)]) ->
+    forall y, feasible cand k y -> score (snd (sort_minimize ev cand k)) <= score (ev y).
+  Proof.
+    intros Hsep y (Hn & Hi & Hl). unfold sort_minimize, score. cbn [snd]. rewrite !Hsep. cbn [sumZ fold_right].
+    assert (Hkey : forall e, single_key ev e = w e).
+    { intros e. unfold single_key. rewrite Hsep. cbn. lia. }
+    unfold sort_select.
+    pose proof (sorted_elems_sorted cand) as Hs.
+    assert (Hs' : StronglySorted (fun a b => w a <= w b) (map snd (isort (keyed ev cand)))).
+    { clear -Hs Hkey. induction Hs as [|a t Hs IH Hf]; constructor; [exact IH|].
+      rewrite Forall_forall in *. intros z Hz. rewrite <- !Hkey. now apply Hf. }
+    pose proof (firstn_min_sum w _ Hs' k y Hn) as H.
+    assert (Hi' : incl y (map snd (isort (keyed ev cand)))).
+    { intros z Hz. apply (Permutation_in _ (Permutation_sym (sorted_elems_perm cand))). now apply Hi. }
+    specialize (H Hi' Hl). lia.
+  Qed.
+End SortProofs.
